@@ -30,6 +30,7 @@ RULE = ("random sequences / coordinate lists x 28 entry points (object methods a
         "arguments, data); non-trivial = all")
 RULE += ("; added after the mutation rounds: near-threshold compositions for N up to 260 (400) and 300..1000; numpy / tuple coordinate containers; coincident markers with different labels; non-ASCII labels and titles; file names with blanks / non-ASCII letters; no closing of figures between consecutive save calls; the first cases of every shard are judged again at its end")
 RULE += ("; round 5: label lists in which some entries are empty")
+RULE += ("; round 6: axis limits 0.35, 0.3, 0.1 (regions partly or wholly outside the view); homopolymers of every length 1-45 at the corners of both diagrams")
 EXHAUSTIVE = {"quick": False, "thorough": False}
 EXHAUSTIVE_NOTE = {"quick": "region agreement: all (n+,n-,N) with N <= 40 under 4 limit settings",
                    "thorough": "region agreement: all (n+,n-,N) with N <= 90 under 4 limit settings"}
